@@ -12,6 +12,7 @@ from vlib.runner import SubProp, Violation
 from mir_eval import alignment, beat, chord, hierarchy, multipitch, onset, pattern, segment, tempo, transcription
 
 PROPERTY_ID = "C08"
+SCALE = (3, 3)   # budget multiplier (quick, thorough) applied to the n=(...) of every generated sub-property
 LEVEL = "exploration"
 RULE = ("inputs on an exact-arithmetic time lattice together with a transformation that carries no musical meaning: a shift by an exactly "
         "representable k/2^q applied to reference and estimate (beats kept >= the trim time), a permutation of notes / of the frequencies inside "
